@@ -100,23 +100,23 @@ pub fn props() -> Vec<PropCfg> {
         },
         PropCfg {
             id: "C05",
-            profiles: &[("C05", 1)],
+            profiles: &[("C05", 5), ("C05-encfail", 1)],
             quick_runs: 40000,
             thorough_runs: 600000,
             level: "exploration",
             rule: "one case = one seeded history (pre-existing active file/archives/bystanders, trigger in {size,time,on-start-up,scripted pre/post}, roller in {delete, fixed window base/count/pattern incl. second mount}, 1-3 writer threads, clean/dirty restarts in either mode) under one seeded schedule, compared byte-for-byte with the directory model after every append; non-trivial = at least one rotation completed; distinct = distinct event-log fingerprints",
-            assumptions: &["no fault is injected in this configuration (faults are C08's)", "dirty restarts happen only while no append is in flight", "interleavings at hook/seam granularity"],
+            assumptions: &["no filesystem fault is injected (those are C08's); profile C05-encfail (1/6 of the histories) makes the harness encoder fail part-way on selected records: the bytes it had written stay in the appender's buffer and are modelled exactly (they reach the file with the next flush, rotation or clean close), nothing acknowledged may be damaged", "dirty restarts happen only while no append is in flight", "interleavings at hook/seam granularity"],
             real: R_REAL,
             stub: R_STUB,
         },
         PropCfg {
             id: "C06",
-            profiles: &[("C06", 39), ("C06-fault", 1)],
+            profiles: &[("C06", 35), ("C06-encfail", 4), ("C06-fault", 1)],
             quick_runs: 40000,
             thorough_runs: 400000,
             level: "exploration",
             rule: "world R restricted to the real SizeTrigger; record lengths are aimed at limit-1/limit/limit+1 of the running file size; at every consultation the size shown to the policy is compared with fs::metadata, and after every append rotation-iff-over-limit is checked against the byte model; non-trivial = at least one rotation completed; distinct = distinct event-log fingerprints",
-            assumptions: &["profile C06 (39/40 of the histories) injects no fault; profile C06-fault (1/40) re-executes its history once per rotation-step site with an error or a crash image there (as C08 does) and keeps judging the size shown to the policy after the failed rotation", "size aiming is exact for single-writer phases and approximate under concurrency"],
+            assumptions: &["profile C06 (35/40 of the histories) injects no fault; profile C06-encfail (4/40) makes the harness encoder fail part-way on selected records (the bytes it wrote stay in the buffer and count); profile C06-fault (1/40) re-executes its history once per rotation-step site with an error or a crash image there (as C08 does) and keeps judging the size shown to the policy after the failed rotation", "size aiming is exact for single-writer phases and approximate under concurrency"],
             real: R_REAL,
             stub: R_STUB,
         },
